@@ -171,9 +171,9 @@ func Verif_C05_garbage_then_other_peer() {
 	verifLoopBound(17) // (the 16-byte marker loop must be able to complete)
 	T := 20
 	if verifTier() >= 1 {
-		T = 48
+		T = 26
 	}
-	verifNote("Server with two passive peers A and B on one listener; A's inbound connection is brought to OpenSent / OpenConfirm / Established, then receives 19 symbolic header bytes + a symbolic tail of 0..T bytes (20 quick / 48 thorough) and EOF (1 short read): no panic, no deadlock; then B's connection establishes and Server.Close returns with every goroutine gone")
+	verifNote("Server with two passive peers A and B on one listener; A's inbound connection is brought to OpenSent / OpenConfirm / Established, then receives 19 symbolic header bytes + a symbolic tail of 0..T bytes (20 quick / 26 thorough) and EOF (1 short read): no panic, no deadlock; then B's connection establishes and Server.Close returns with every goroutine gone")
 	e := newSrvEnv()
 	ra, rb := netip.AddrFrom4([4]byte{192, 0, 2, 1}), netip.AddrFrom4([4]byte{192, 0, 2, 2})
 	for _, r := range []netip.Addr{ra, rb} {
